@@ -399,6 +399,12 @@ func (g *genCtx) genOp(t *rapid.T, kinds []string) Op {
 		op.CW = g.genCWs(t)
 		if kind == "dseek" {
 			op.ID = g.daoID(t)
+			// Priv: the scan goes through a private DAO stacked on the queried layer (the form block and
+			// transaction execution use), and the callback reads other items through that same DAO.
+			if rapid.Bool().Draw(t, "dseek_private") {
+				op.Priv = true
+				op.CW = nil
+			}
 		}
 	case "async", "dasync":
 		op = g.genAsync(t, kind)
@@ -489,7 +495,7 @@ func genLayersMem(t *rapid.T) Case  { return genCaseWith(t, []string{"mem"}, fal
 func genLayersDisk(t *rapid.T) Case { return genCaseWith(t, []string{"bolt", "leveldb"}, false, false) }
 func genTri(t *rapid.T) Case        { return genCaseWith(t, []string{"tri"}, false, false) }
 func genDao(t *rapid.T) Case {
-	return genCaseWith(t, []string{"mem", "mem", "mem", "mem", "bolt", "leveldb"}, true, false)
+	return genCaseWith(t, []string{"mem", "mem", "mem", "bolt", "bolt", "leveldb"}, true, false)
 }
 func genGated(t *rapid.T) Case {
 	return genCaseWith(t, []string{"mem", "mem", "mem", "mem", "mem", "mem", "bolt", "leveldb"}, false, true)
